@@ -209,7 +209,7 @@ pub fn generate(run_seed: u64) -> Scenario {
     p.mix.entities |= wl.chance(1, 2);
     p.links |= wl.chance(1, 2);
     p.comments |= wl.chance(1, 2);
-    p.huge_nums = false;
+    p.huge_nums = wl.chance(1, 5);
     let doc = if wl.chance(1, 4) {
         gen_doc_from_seeds(&mut wl, target, &p.mix, false)
     } else {
@@ -388,10 +388,35 @@ pub fn generate(run_seed: u64) -> Scenario {
             preempt_ticks.sort_unstable();
             preempt_ticks.dedup();
         }
+        // ... and at the n-th occurrence of individual sites: every site kind
+        // gets the same share, so rarely reached ones (column remapping, table
+        // shrinking, hard wraps, foster parenting ...) are preempted as often
+        // as the per-character ones.
+        let mut preempt_sites: Vec<(u32, u64)> = Vec::new();
+        if class == 2 {
+            let n = er.weighted(&[30, 30, 25, 15]);
+            let n = match n {
+                0 => 0,
+                1 => er.urange(1, 2),
+                2 => er.urange(3, 6),
+                _ => er.urange(7, 16),
+            };
+            for _ in 0..n {
+                let site = er.below(html2text::verif_hooks::NUM_SITES as u64) as u32;
+                let nth = match er.below(4) {
+                    0 => 1,
+                    1 => er.range(1, 4),
+                    2 => er.range(1, 32),
+                    _ => er.range(1, 1000),
+                };
+                preempt_sites.push((site, nth));
+            }
+        }
         threads.push(ThreadSpec {
             stack_kib: 8192,
             ops,
             preempt_ticks,
+            preempt_sites,
         });
     }
     // Every tree handed to a thread is picked up there (bounded polite
